@@ -26,6 +26,7 @@ import (
 	"time"
 
 	"github.com/youzan/ZanRedisDB/common"
+	"github.com/youzan/ZanRedisDB/internal/verifhook"
 	"github.com/youzan/ZanRedisDB/pkg/fileutil"
 	"github.com/youzan/ZanRedisDB/pkg/pbutil"
 	"github.com/youzan/ZanRedisDB/raft"
@@ -666,6 +667,7 @@ func (w *WAL) cut() error {
 	if err = os.Rename(newTail.Name(), fpath); err != nil {
 		return err
 	}
+	verifhook.Crash("wal.cut")
 	if err = fileutil.Fsync(w.dirFile); err != nil {
 		return err
 	}
